@@ -133,6 +133,19 @@ func genPacket(r *Rng) *astits.Packet {
 			}
 			af := genAF(r, max)
 			used := afBytes(af)
+			if !h.HasPayload && r.Chance(1, 3) {
+				// no stuffing at all: private data sized so that the optional parts end exactly at the end of the
+				// packet (with an extension, its last field occupies the last bytes)
+				if af.HasTransportPrivateData {
+					af.TransportPrivateData = append(af.TransportPrivateData, r.Bytes(184-used)...)
+					af.TransportPrivateDataLength = len(af.TransportPrivateData)
+				} else if 184-used >= 1 {
+					af.HasTransportPrivateData = true
+					af.TransportPrivateData = r.Bytes(184 - used - 1)
+					af.TransportPrivateDataLength = 184 - used - 1
+				}
+				used = afBytes(af)
+			}
 			if !h.HasPayload {
 				af.StuffingLength = 184 - used
 			} else if r.Bool() {
